@@ -142,6 +142,17 @@ def narrowing_templates():
         T.append([mk, idS, ("destruct", ["a", "b"], ("call", V("mk"), [arg])), ("call", V("ids"), [V("a")])])
         T.append([mk, ("set", "out", ("mut", FLOAT, ("f", 0.0))), ("destruct", ["a", "b"], ("call", V("mk"), [arg])), ("assign", "set", V("out"), V("b")), ("pre", "deref", V("out"))])
         T.append([mk, ("fndecl", "g", [("p", TU)], STR, [("destruct", ["a", "b"], V("p")), ("return", V("a"))]), ("call", V("g"), [("call", V("mk"), [arg])])])
+    # .. and the names USED where only one member's component fits (an operator that answers a wrong operand kind with a panic):
+    # members whose components at the same position have different types, as many names as the SHORTEST member has
+    TV = multi(tup(INT, INT), tup(STR, INT, INT))
+    mk2 = ("fndecl", "mk", [("c", BOOL)], TV, [("if", V("c"), ("block", [("return", ("tuple", [I(7), I(2)]))]), None), ("return", ("tuple", [("s", "s"), I(2), I(3)]))])
+    for arg in (("true",), ("false",)):
+        for use in (("bin", "sub", V("a"), V("b")), ("bin", "mul", V("a"), V("b")), ("pre", "neg", V("a")), ("bin", "shl", V("b"), V("a")),
+                    ("at", ("array", [I(1), I(2)]), V("a"))):
+            T.append([mk2, ("destruct", ["a", "b"], ("call", V("mk"), [arg])), use])
+            T.append([mk2, ("fndecl", "g", [("p", TV)], ("any",), [("destruct", ["a", "b"], V("p")), ("return", use)]), ("call", V("g"), [("call", V("mk"), [arg])])])
+        T.append([("set", "ts", ("array", [("tuple", [I(2), I(3)]), ("tuple", [("s", "s"), I(2), I(3)])])),
+                  ("destruct", ["a", "b"], ("at", V("ts"), I(0 if arg == ("true",) else 1))), ("bin", "sub", V("a"), V("b"))])
     # stray signals after constant-condition loops and in function bodies
     for cond in (("true",), ("false",)):
         for sig in (("break",), ("continue",)):
